@@ -390,3 +390,48 @@ Lemma ex_linked_runs :
     map fst (filter (fun kv => negb (M.v_fict (snd kv))) w1) = [2; 12; 13] /\
     map fst (filter (fun kv => negb (M.v_fict (snd kv))) w2) = [2; 12; 13].
 Proof. do 6 eexists. repeat split; vm_compute; reflexivity. Qed.
+
+(* the renumbering of an option vector: none with --skip-deduplication, else the
+   map remove_duplicate_surfaces returns for the surface table *)
+Definition renumbering_of (o : options) (surfs : list (Z * desc R)) : option (M.dict Z) :=
+  if skip_dedup o then None else Some (snd (remove_duplicate_surfaces RS surfs)).
+
+(* ... with C01's [respects] hypotheses discharged by C13's de-duplication theorem:
+   sigma is the sense assignment induced on the TRIPOLI-4 surface table by any
+   function of the descriptors (the sign of the implicit function at a point) *)
+Theorem options_same_written_dedup_linked
+  (sense : desc R -> bool) surfs
+  fuel (o1 o2 : options) dic counter d1 c1 d2 c2
+  matching u0 u1 cfuel todo cnt0 s1 s2 skipped w1 w2 c :
+  NoDup (map fst surfs) ->
+  (forall k, lookup k dic <> None -> k <= counter) -> (exists rank, acyclic rank dic) ->
+  good_cells matching dic ->
+  cell_stage fuel o1 dic counter = Ok (d1, c1) -> cell_stage fuel o2 dic counter = Ok (d2, c2) ->
+  0 < u0 -> 0 < u1 -> S1.consistent (sense_of sense surfs) u0 u1 ->
+  NoDup todo -> (forall k, In k todo -> k <= cnt0) -> (forall k, In k todo -> lookup k d1 <> None) ->
+  M.convert_cells cfuel (embed_cells d1) matching u0 u1 todo (M.mkSt cnt0 [] [] []) = M.Ok s1 ->
+  M.convert_cells cfuel (embed_cells d2) matching u0 u1 todo (M.mkSt cnt0 [] [] []) = M.Ok s2 ->
+  M.prune u0 u1 (renumbering_of o1 surfs) (M.vols s1) = M.Ok w1 ->
+  M.prune u0 u1 (renumbering_of o2 surfs) (M.vols s2) = M.Ok w2 ->
+  (forall k, In k skipped -> k <= cnt0 /\ ~ In k todo) ->
+  lookup c d1 <> None ->
+  exists r1, acyclic r1 d1 /\
+  (cden r1 (sigmaM (sense_of sense surfs) matching) d1 c = true ->
+   (forall c', In c' todo -> cden r1 (sigmaM (sense_of sense surfs) matching) d1 c' = true -> c' = c) ->
+   (forall k, C01.ProofsCells.in_volume (sense_of sense surfs) (M.written skipped w1) k <->
+              C01.ProofsCells.in_volume (sense_of sense surfs) (M.written skipped w2) k) /\
+   (In c todo -> forall k, C01.ProofsCells.in_volume (sense_of sense surfs) (M.written skipped w1) k <-> k = c) /\
+   (~ In c todo -> forall k, ~ C01.ProofsCells.in_volume (sense_of sense surfs) (M.written skipped w1) k) /\
+   (forall a b, lookup c d1 = Some a -> lookup c d2 = Some b ->
+      corigin a = corigin b /\ cmat a = cmat b)).
+Proof.
+  intros Hns Hb Hac Hg H1 H2 Hu0 Hu1 Hcons Hnd Hle Hin Hc1 Hc2 Hp1 Hp2 Hsk Hc.
+  assert (Hresp : forall o r, renumbering_of o surfs = Some r ->
+                    C01.ProofsPrune.respects (sense_of sense surfs) r).
+  { intros o r Hr. unfold renumbering_of in Hr. destruct (skip_dedup o); [discriminate|].
+    injection Hr as <-. apply merged_surfaces_equal_senses. exact Hns. }
+  exact (options_same_written_linked_input fuel o1 o2 dic counter d1 c1 d2 c2
+           (sense_of sense surfs) matching u0 u1 cfuel todo cnt0 s1 s2
+           (renumbering_of o1 surfs) (renumbering_of o2 surfs) skipped w1 w2 c
+           Hb Hac Hg H1 H2 Hu0 Hu1 Hcons Hnd Hle Hin Hc1 Hc2 Hp1 Hp2 (Hresp o1) (Hresp o2) Hsk Hc).
+Qed.
